@@ -359,21 +359,13 @@ def r6(ctx, cfg):
         # the hashed key: the Vec that receives extend_from_slice calls (however they are written: three calls, a loop
         # over the three parts, concat)
         from vlib import pipeline
-        cands = []
-        for l2 in range(1, len(f.locals)):
-            if f.locals[l2]["s"].startswith("std::vec::Vec<u8") and P.mutations(f, l2):
-                cands.append(l2)
+        # the key is what is fed last into the hash: Sha256::new().chain(module).chain(KEY)
+        chains = [(b0, t0) for b0, t0 in f.calls() if t0["callee"]["name"] in ("chain", "chain_update", "update")]
         parts = None
-        for l2 in cands:
-            ds = [d0 for d0 in P.defs(f).get(l2, []) if not d0[3]["dst"]["p"]]
-            if len(ds) != 1:
-                continue
-            site = (ds[0][1], "t") if ds[0][0] == "call" else (ds[0][1], ds[0][2])
-            last = max((b0 for b0, t0, ai in P.mutations(f, l2)), default=None)
-            o2 = P.local(f, l2, (f.order[-1], "t")) if last is None else P.local(f, l2, (cfg_of(f).after_call_node(last) or last, 0))
-            parts = pipeline.byte_parts(P, F, f, P.local(f, l2))
-            if parts is not None and len(parts) == 3:
-                break
+        for b0, t0 in chains:
+            a0_ = P.call_args(f, t0, b0)
+            if len(a0_) == 2 and contains(a0_[0], lambda x: x[0] == "call" and x[1].rsplit("::", 1)[-1] in ("chain", "chain_update", "update")):
+                parts = pipeline.byte_parts(P, F, f, a0_[1])
         ok = parts is not None and len(parts) == 3
         d = "?"
         if ok:
@@ -407,16 +399,17 @@ def r6(ctx, cfg):
             bid, t = cc[0]
             a = P.call_args(f, t, bid)
             inst = peel(a[4])
-            ok = is_param(a[3], "code_id") and contains(inst, lambda x: x[0] == "call" and x[1] == W + "instance_count" and is_param(x[2][1], "storage"))
+            # the instance number is the number of registered contracts: CONTRACTS.range_raw(wasm view of this storage).count()
+            # (the private helper instance_count is always spliced - vlib/inline.py ALWAYS_INLINE)
+            def is_count(x):
+                if not (x[0] == "call" and x[1].endswith("Iterator::count")):
+                    return False
+                return contains(x[2][0], lambda y: y[0] == "call" and y[1] == "cw_storage_plus::Map::range_raw" and peel(y[2][0]) == ("item", "wasm::CONTRACTS") and
+                                contains(y[2][1], lambda z: z[0] == "call" and z[1] == "prefixed_storage::prefixed_read" and is_param(z[2][0], "storage") and
+                                         peel(z[2][1]) == ("item", "wasm::NAMESPACE_WASM")))
+            ok = is_param(a[3], "code_id") and contains(inst, is_count)
         ctx.ob(R, key, "classic(code_id, instance_count(storage))", ok, "classic address arguments are not (code_id, instance_count(storage))", fn=f,
                sample="contract_address(api, storage, code_id, instance_count(storage))")
-    key = W + "instance_count"
-    f = ctx.need_fn(R, key)
-    if f is not None:
-        rr = q.calls(f, "cw_storage_plus::Map::range_raw")
-        ok = len(rr) == 1 and peel(P.call_args(f, rr[0][1], rr[0][0])[0]) == ("item", "wasm::CONTRACTS") and \
-            contains(P.ret(f), lambda x: x[0] == "call" and x[1].endswith("Iterator::count"))
-        ctx.ob(R, key, "counts-registry-entries", ok, "instance_count does not count CONTRACTS", fn=f, sample="CONTRACTS.range_raw(..).count()")
 
 
 MAX_KEY_IDIOMS = {
